@@ -15,6 +15,28 @@ CLAIMED = {
         technique="Lean 4 structural proofs over a hand-written executable model + kernel-checked finite tables; differential correspondence with normalize_predicate.py",
         ref="DESIGN.md §5 C16"),
 }
+CLAIMED.update({
+    "C04": dict(
+        text="Proof: filter_programs.py and run_pipeline's command parsing are modelled in Lean (sets as lists modulo membership, Counter through its count semantics, regex answers as an oracle parameter); theorems C04_include/_include_all/_exclude/_exclude_all/_impart/_hide/_error/_parse state the documented set algebra for EVERY well-formed database, oracle, filter state and criteria list. Model tied to the Python by a differential run on random well-formed databases and pipelines (final sets, state after each command, ranking), with shrinking.",
+        note="Trusted: Lean kernel; hand model validated by correspondence; regex engine as oracle (computed with the real `regex`); database well-formedness Ctx.WF is a hypothesis (C11 establishes it); predicate strings via the C16 model and the generated C08 table. impart/hide criteria are strings.",
+        technique="Lean 4 proofs (set-algebra characterisation of an executable model, all databases/pipelines) + differential correspondence with Recommendations.run_pipeline",
+        ref="DESIGN.md §5 C04"),
+    "C05": dict(
+        text="Proof: programs_of_negated_triple (as repaired by fix 36d3c6b) is modelled; C05_negated/C05_include_negated prove that a negated triple is met exactly by the programs having a subject occurrence in relation with no OTHER object occurrence, for every well-formed database, oracle and relation; C05_no_object and C05_self_only are the two corner cases named by the property; C05_negation_spelling links any `!`-negated formula spelling (arbitrary junk) of any of the 162 keys to the chain the key spells (via C16 and C08).",
+        note="Trusted: as C04. The original code violated this property (known_findings F01, fixed); reverting the fix is caught by the bounded-exhaustive mini stream.",
+        technique="Lean 4 proof of model = specification for negated triples + bounded-exhaustive and random differential correspondence",
+        ref="DESIGN.md §5 C05"),
+    "C06": dict(
+        text="Proof: every command acts through an effect that depends on the database and the command only (runCommand_effect); hence C06_monotone, C06_order_independent (any permutation: same success, same four sets), C06_include_all_split, C06_exclude_split, C06_hide_neutral, and the two meta/program equivalences under the hypotheses made precise in MetaHyp — all for every database, oracle and command list. The implementation is additionally observed metamorphically (permutations, splits, hide insertions, equivalences) and compared with the model.",
+        note="Trusted: as C04. Costs' order-independence follows from C07_knowledge_as_set (costs depend on the knowledge as a set).",
+        technique="Lean 4 proofs by induction over command lists (effect/commutation argument) + metamorphic and differential runs of run_pipeline",
+        ref="DESIGN.md §5 C06"),
+    "C07": dict(
+        text="Proof: assess_costs.py modelled with exact rationals; C07_taxon_zero / C07_taxon (cost = range cost from the longest imparted proper prefix, uniquely characterised) / C07_zeno_sum / C07_zeno_closed (2^-k - 2^-d) / C07_linear / C07_program / C07_ranking (sorted by (cost, path), permutation of the selection); C07_history: for EVERY sequence of set_imparted_knowledge / taxon_cost / assess operations on one memoised assessor, every output equals the pure function of the knowledge current at that step (invariant on the memo; model mirrors fix 0eef720).",
+        note="Trusted: Lean kernel; hand model validated by correspondence (exact Fraction(float) = Rat inside the float envelope: depth <= 40, totals < 2^12); which taxa a record holds after add_imported_taxa is compared with the model on every pipeline but is not yet a theorem.",
+        technique="Lean 4 proofs (loop characterisation, closed form over Rat, refinement of a memoised state machine to the pure function by invariant over operation sequences) + differential correspondence incl. call histories",
+        ref="DESIGN.md §5 C07"),
+})
 PENDING_REASON = "not claimed yet: model/theorems/correspondence for this property are still under construction (see DESIGN.md §5/§9)"
 
 
